@@ -494,10 +494,10 @@ def whenReturns (sig : Sig) : WS → Bool → List (List Val) → Option String 
 /-- when.go:44 CreateWhen (+ :77 checkParams); `none` arguments = a nil slice -/
 def createWhen (sig : Sig) (ws : WS) (pats : Option (List String)) (dflt : Option (List Val)) : Except String (WS × When) :=
   let numIn := sig.params.length + (if sig.variadic then 1 else 0)
-  if (match dflt with | some r => decide (r.length < sig.nOut) | none => false) then .error "reterr"
+  if (match dflt with | some r => decide (r.length < sig.nOut) | none => false) then .error "lenerr"
   else if (match pats with
            | some a => if sig.isMethod then decide (a.length + 1 < numIn) else decide (a.length < numIn)
-           | none => false) then .error "whenerr"
+           | none => false) then .error "lenerr"
   else
     let r1 : Except String (WS × Option Nat) :=
       match dflt with
